@@ -26,6 +26,9 @@ pub struct WritePlan {
     /// per poll (cycled): `Some(k)` accept at most k bytes (k ≥ 1), `None` = `Pending` (self-wake);
     /// empty = accept everything
     pub steps: Vec<Option<usize>>,
+    /// (offset in the clientbound byte stream, virtual duration): a write is cut at that offset and
+    /// the transport then accepts nothing for that long (a full socket buffer)
+    pub stalls: Vec<(usize, std::time::Duration)>,
 }
 
 #[derive(Clone, Debug, PartialEq, Eq)]
@@ -55,6 +58,9 @@ struct Shared {
     server_closed: bool,
     write_plan: WritePlan,
     write_polls: usize,
+    write_blocked_until: Option<tokio::time::Instant>,
+    write_waker: Option<Waker>,
+    stalls_done: usize,
     log: Vec<IoEvent>,
     log_enabled: bool,
     start: tokio::time::Instant,
@@ -104,6 +110,9 @@ pub fn pair(read_plan: ReadPlan, write_plan: WritePlan, log_enabled: bool) -> (S
         server_closed: false,
         write_plan,
         write_polls: 0,
+        write_blocked_until: None,
+        write_waker: None,
+        stalls_done: 0,
         log: Vec::new(),
         log_enabled,
         start: tokio::time::Instant::now(),
@@ -174,11 +183,42 @@ impl AsyncWrite for SimStream {
         if buf.is_empty() {
             return Poll::Ready(Ok(0));
         }
+        // a stalled transport accepts nothing until the stall is over
+        if let Some(until) = s.write_blocked_until {
+            if tokio::time::Instant::now() < until {
+                s.write_waker = Some(cx.waker().clone());
+                s.log(IoEvent::WritePending { t_ns: t });
+                return Poll::Pending;
+            }
+            s.write_blocked_until = None;
+        }
+        let mut limit = usize::MAX;
+        if let Some((at, dur)) = s.write_plan.stalls.get(s.stalls_done).copied() {
+            let written = s.s2c.len();
+            if written >= at {
+                // begin the stall now
+                s.stalls_done += 1;
+                s.write_blocked_until = Some(tokio::time::Instant::now() + dur);
+                s.write_waker = Some(cx.waker().clone());
+                let shared = self.shared.clone();
+                tokio::spawn(async move {
+                    tokio::time::sleep(dur).await;
+                    let w = lock(&shared).write_waker.take();
+                    if let Some(w) = w {
+                        w.wake();
+                    }
+                });
+                s.log(IoEvent::WritePending { t_ns: t });
+                return Poll::Pending;
+            }
+            limit = at - written;
+        }
         let step = if s.write_plan.steps.is_empty() {
             Some(usize::MAX)
         } else {
             s.write_plan.steps[poll_index % s.write_plan.steps.len()]
         };
+        let step = step.map(|k| k.min(limit));
         match step {
             None => {
                 s.log(IoEvent::WritePending { t_ns: t });
